@@ -142,20 +142,22 @@ public:
         }
         return makeReadyTask(QHash<QString, MH>());
     }
+    static VpMHBlk *levelBlk(unsigned level)   // slot q <-> pair q (one loop per function: nested loops confuse the loop bounds)
+    {
+        VpMHBlk *blk = new VpMHBlk;
+        for (unsigned q = 0; q < NQ; q++) {
+            blk->used[q] = g_st.L[q] == level;
+            vp_c18_owner_str(&blk->k[q], ownerOf(q));
+            vp_c18_key_str(&blk->v[q], 'A' + q);
+        }
+        return blk;
+    }
     QXmppTask<QHash<TL, MH>> keys(const QString &, QXmpp::TrustLevels trustLevels = {}) override
     {
         QHash<TL, MH> h;
-        static const int lv[2] = { LvManDistrusted, LvAuthenticated };
         vp_c18_limit(int(trustLevels) == (LvManDistrusted | LvAuthenticated));
-        for (int k = 0; k < 2; k++) {
-            VpMHBlk *blk = new VpMHBlk;
-            for (unsigned q = 0; q < NQ; q++) {
-                blk->used[q] = g_st.L[q] == lv[k];
-                vp_c18_owner_str(&blk->k[q], ownerOf(q));
-                vp_c18_key_str(&blk->v[q], 'A' + q);
-            }
-            h.s[k == 0 ? 2 : 5].b = blk;
-        }
+        h.s[0].b = levelBlk(LvManDistrusted);
+        h.s[1].b = levelBlk(LvAuthenticated);
         return makeReadyTask(std::move(h));
     }
     QXmppTask<void> addKeysForPostponedTrustDecisions(const QString &, const QByteArray &senderKeyId, const QList<QXmppTrustMessageKeyOwner> &keyOwners) override
@@ -434,4 +436,34 @@ extern "C" void h_msg()
     vp_assert(sameLevels(g_st, ref), "C18 trust levels after a trust message equal the XEP-0450 reference (authenticated sender, scope, echo, cascade)");
     vp_assert(subsetPostponed(g_st, ref), "C18 every postponed decision kept by the storage is one the reference keeps");
     vp_assert(subsetPostponed(ref, g_st), "C18 every postponed decision of the reference is still held back");
+}
+
+// ------------------------------------------------------------------------------------------------ manual decision event
+// QXmppAtmManager::makeTrustDecisions(encryption, owner, keysForAuthentication, keysForDistrusting) (public API: QR code scan,
+// manual entry).  shape (C18_CFG): bit 0 one key to authenticate, bit 1 one key to distrust, bit 2 the owner is the own account;
+// bits 8-9 postponed-decision slots of the pre-state.  Symbolic: which keys of the owner, pre-state.
+extern "C" void h_manual()
+{
+    World w;
+    unsigned cfg = vp_c18_cfg();
+    bool hasA = cfg & 1, hasD = cfg & 2, own = cfg & 4;
+    symState(g_st, (cfg >> 8) & 3);
+    TrustState ref = g_st;
+    unsigned base = own ? 0 : 2;
+    unsigned aq = base + (vp_bool() ? 1 : 0), dq = base + (vp_bool() ? 1 : 0);
+    QList<QByteArray> la, ld;
+    if (hasA) la.append(key1('A' + aq));
+    if (hasD) ld.append(key1('A' + dq));
+
+    auto task = w->makeTrustDecisions(g_enc, str1(own ? 'o' : 'c'), la, ld);
+
+    // reference: keys that already have the requested level are skipped; the rest is authenticated (with the cascade of
+    // postponed decisions) and then distrusted
+    unsigned A = hasA && ref.L[aq] != LvAuthenticated ? 1u << aq : 0;
+    unsigned D = hasD && ref.L[dq] != LvManDistrusted ? 1u << dq : 0;
+    refApply<3>(ref, g_policy, A, D);
+    vp_assert(task.isFinished(), "C18 makeTrustDecisions completes (storage answers synchronously)");
+    vp_assert(sameLevels(g_st, ref), "C18 trust levels after a manual decision equal the XEP-0450 reference (incl. cascade of postponed decisions)");
+    vp_assert(subsetPostponed(g_st, ref), "C18 manual decision: every postponed decision kept by the storage is one the reference keeps");
+    vp_assert(subsetPostponed(ref, g_st), "C18 manual decision: every postponed decision of the reference is still held back");
 }
